@@ -196,7 +196,7 @@ pub fn run(ctx: &Ctx) -> Report {
         let edge = Mutex::new(DiffStats::default());
         for b in &ws {
             let m = model(b, &stats, &edge);
-            let out = poolexplore::run_world(ctx, &mut r, b, &m, ctx.pick(3, 5), share);
+            let out = poolexplore::run_world(ctx, &mut r, b, &m, ctx.depth(3, 5), share);
             poolexplore::fold(&mut r, &b.name, &out, &m.alphabet[..3]);
             if !r.violations.is_empty() {
                 break;
